@@ -69,6 +69,9 @@ for name, f, goals in [
     ("oneof_with_switch", C.oneof_with_switch, ("oneof_fallback",)),
     ("oneof_with_switch_deep", C.oneof_with_switch_deep, ("oneof_fallback",)),
     ("oneof_diamond", C.oneof_diamond, ("oneof_fallback",)),
+    ("oneof_shared_inflight", C.oneof_shared_inflight, ("oneof_fallback",)),
+    ("oneof_reached_twice", C.oneof_reached_twice, ("oneof_fallback",)),
+    ("retry_attempts_zero", C.retry_attempts_zero, ()),
     ("rec_simple", lambda: C.rec_simple(2, False, True), ("reiterated", "ref_fail_rec")),
     ("rec_two_scopes", C.rec_two_scopes, ("reiterated",)),
     ("rec_with_switch", lambda: C.rec_with_switch(1), ("reiterated",)),
@@ -88,8 +91,8 @@ _reg("C02", "collab_fault_rhombus", lambda: C.rhombus(False), _nothing, judge_ha
      extra_syms=("index of the event callback that raises", "index of the artifact save that raises"))
 
 # ------------------------------------------------------------------------------------ C03
-def _c03(obs: Obs, ref: RefResult, sym: Any) -> Optional[str]:
-    return V.args(obs, ref) or V.input_untouched(obs)
+def _c03(obs: Obs, ref: RefResult, sym: Any) -> Any:
+    return [x for x in (V.args(obs, ref), V.input_untouched(obs)) if x]
 
 
 for name, f, goals in [
@@ -110,8 +113,9 @@ for name, f, goals in [
     _reg("C03", name, f, _c03, goals=goals)
 
 # ------------------------------------------------------------------------------------ C04
-def _c04(obs: Obs, ref: RefResult, sym: Any) -> Optional[str]:
-    return V.once(obs, ref)
+def _c04(obs: Obs, ref: RefResult, sym: Any) -> Any:
+    # an unbounded number of executions shows as the loop's iteration cap (Livelock)
+    return [x for x in (("livelock" if obs.kind == "livelock" else None), V.once(obs, ref)) if x]
 
 
 def shared_scopes() -> Spec:
@@ -134,9 +138,12 @@ for name, f, goals in [
     ("oneof_shared_dep", C.oneof_shared_dep, ()),
     ("oneof_chained", C.oneof_chained, ("oneof_fallback",)),
     ("rec_inner_start", lambda: C.rec_inner_start(1), ("reiterated",)),
+    ("rec_side_input", C.rec_side_input, ("reiterated",)),
     ("rec_nested", C.rec_nested, ("reiterated",)),
     ("rec_with_switch", lambda: C.rec_with_switch(1), ("reiterated",)),
     ("retry_sibling", C.retry_sibling, ()),
+    ("retry_attempts_zero", C.retry_attempts_zero, ()),
+    ("oneof_reached_twice", C.oneof_reached_twice, ("oneof_fallback",)),
 ]:
     _reg("C04", name, f, _c04, goals=goals)
 
@@ -164,30 +171,32 @@ for name, f, goals in [
     ("oneof_nested", C.oneof_nested, ("oneof_all_failed",)),
     ("oneof_shared_dep", C.oneof_shared_dep, ("ref_fail",)),
     ("oneof_diamond", C.oneof_diamond, ("oneof_fallback", "oneof_all_failed")),
+    ("oneof_shared_inflight", C.oneof_shared_inflight, ("oneof_fallback",)),
+    ("oneof_with_switch", C.oneof_with_switch, ("oneof_fallback",)),
     ("switch_fall", lambda: C.switch_basic(False, True), ("ref_fail",)),
     ("rec_simple", lambda: C.rec_simple(1, False, True), ("ref_fail_rec",)),
     ("rec_in_oneof", C.rec_in_oneof, ()),
     ("retry_sibling", C.retry_sibling, ("ref_fail",)),
+    ("retry_sibling_default", lambda: C.retry_sibling(3, 2, True), ("default_used",)),
 ]:
     _reg("C05", name, f, _c05, goals=goals)
 
 # ------------------------------------------------------------------------------------ C09
-def _c09(obs: Obs, ref: RefResult, sym: Any) -> Optional[str]:
-    lab = V.hang(obs)
-    if lab:
-        return lab
+def _c09(obs: Obs, ref: RefResult, sym: Any) -> Any:
+    out = []
+    if V.hang(obs):
+        return [V.hang(obs)]
     lab = V.once(obs, ref)
     if lab and (lab.startswith("executed_undemanded") or lab.startswith("executed_more")):
-        return lab
+        out.append(lab)
     spec = obs.rc.spec
     consumers = {n.name for n in spec.nodes if any(isinstance(m, Sw) for _, m in n.params)}
-    lab = V.args(obs, ref, consumers)
-    if lab:
-        return lab
+    out.append(V.args(obs, ref, consumers))
     if any(c is None for c in ref.selected.values()) and isinstance(ref.outcome, Fail):
         if obs.kind != "done" or obs.error is None:
-            return "unknown_label_not_an_error_result:%s" % obs.kind
-    return V.outcome(obs, ref)
+            out.append("unknown_label_not_an_error_result:%s" % obs.kind)
+    out.append(V.outcome(obs, ref))
+    return [x for x in out if x]
 
 
 for name, f, goals in [
@@ -203,19 +212,20 @@ for name, f, goals in [
     _reg("C09", name, f, _c09, goals=goals)
 
 # ------------------------------------------------------------------------------------ C10
-def _c10(obs: Obs, ref: RefResult, sym: Any) -> Optional[str]:
-    lab = V.hang(obs)
-    if lab:
-        return lab
+def _c10(obs: Obs, ref: RefResult, sym: Any) -> Any:
+    if V.hang(obs):
+        return [V.hang(obs)]
+    out = []
     lab = V.once(obs, ref)
     if lab and (lab.startswith("executed_undemanded") or lab.startswith("executed_more")):
-        return lab
+        out.append(lab)
     spec = obs.rc.spec
     consumers = {n.name for n in spec.nodes if any(isinstance(m, OneOf) for _, m in n.params)}
-    lab = V.args(obs, ref, consumers) or V.oneof_order(obs, ref)
-    if lab:
-        return lab
-    return V.outcome(obs, ref) or V.faithful(obs, ref)
+    out.append(V.args(obs, ref, consumers))
+    out.append(V.oneof_order(obs, ref))
+    out.append(V.outcome(obs, ref))
+    out.append(V.faithful(obs, ref))
+    return [x for x in out if x]
 
 
 for name, f, goals in [
@@ -232,15 +242,14 @@ for name, f, goals in [
     ("oneof_with_switch_deep", C.oneof_with_switch_deep, ("oneof_fallback",)),
     ("oneof_shared_dep", C.oneof_shared_dep, ()),
     ("oneof_diamond", C.oneof_diamond, ("oneof_fallback",)),
+    ("oneof_shared_inflight", C.oneof_shared_inflight, ("oneof_fallback",)),
+    ("oneof_reached_twice", C.oneof_reached_twice, ("oneof_fallback",)),
 ]:
     _reg("C10", name, f, _c10, goals=goals)
 
 # ------------------------------------------------------------------------------------ C11
-def _c11(obs: Obs, ref: RefResult, sym: Any) -> Optional[str]:
-    lab = V.once(obs, ref) or V.args(obs, ref)
-    if lab:
-        return lab
-    return V.outcome(obs, ref)
+def _c11(obs: Obs, ref: RefResult, sym: Any) -> Any:
+    return [x for x in (V.once(obs, ref), V.args(obs, ref), V.outcome(obs, ref)) if x]
 
 
 for name, f, goals in [
@@ -248,6 +257,7 @@ for name, f, goals in [
     ("rec_simple_default", lambda: C.rec_simple(2, True), ("reiterated", "default_used")),
     ("rec_inner_start", lambda: C.rec_inner_start(1), ("reiterated",)),
     ("rec_inner_start_default", lambda: C.rec_inner_start(1, True), ("default_used",)),
+    ("rec_side_input", C.rec_side_input, ("reiterated",)),
     ("rec_two_scopes", C.rec_two_scopes, ("reiterated",)),
     ("rec_with_switch", lambda: C.rec_with_switch(1), ("reiterated",)),
     ("rec_with_oneof", C.rec_with_oneof, ("reiterated",)),
@@ -298,3 +308,97 @@ for name, f, goals in [
     ("retry_chain", C.retry_chain, ("default_used",)),
 ]:
     _reg("C19", name, f, _c19, goals=goals, cfg_fn=_store_cfg)
+
+
+# ------------------------------------------------------------------------------------ thorough tier
+# (a) tick mode: the virtual clock advances by one per loop iteration, so a completion can land in the middle of an
+#     engine cascade (finer than the quiescent model); durations bounded by D = 6 loop steps.
+# (b) larger templates / deeper bounds.
+def _tick_cfg(sym: Any) -> Cfg:
+    return Cfg(tick=1)
+
+
+def _tick_events_cfg(sym: Any) -> Cfg:
+    return Cfg(tick=1, events=True)
+
+
+def _tick_store_cfg(sym: Any) -> Cfg:
+    return Cfg(tick=1, store=True, write_once=True)
+
+
+TICK = {"dur_max": 6}
+TICK_SYMS = ("tick mode: clock +1 per loop iteration, durations in [0,6] loop steps",)
+for prop, verdict, hang_judged, cfgf, specs in [
+    ("C01", None, False, _tick_cfg, [("rhombus", lambda: C.rhombus(True)), ("oneof_basic", C.oneof_basic),
+                                     ("switch_shared_case", C.switch_shared_case)]),
+    ("C02", _nothing, True, _tick_cfg, [("switch_shared_case", C.switch_shared_case), ("oneof_depth2", lambda: C.oneof_depth(2)),
+                                        ("oneof_diamond", C.oneof_diamond), ("rec_simple", lambda: C.rec_simple(1, False, True))]),
+    ("C03", _c03, False, _tick_cfg, [("rhombus", lambda: C.rhombus(True)), ("rec_inner_start", lambda: C.rec_inner_start(1))]),
+    ("C04", _c04, False, _tick_cfg, [("switch_shared_case", C.switch_shared_case), ("shared_scopes", shared_scopes)]),
+    ("C05", _c05, False, _tick_cfg, [("oneof_diamond", C.oneof_diamond), ("three_fail", three_fail)]),
+    ("C09", _c09, False, _tick_cfg, [("switch_shared_case", C.switch_shared_case), ("switch_case_also_input", C.switch_case_also_input)]),
+    ("C10", _c10, False, _tick_cfg, [("oneof_depth2", lambda: C.oneof_depth(2)), ("oneof_diamond", C.oneof_diamond)]),
+    ("C11", _c11, False, _tick_cfg, [("rec_inner_start", lambda: C.rec_inner_start(1)), ("rec_simple", lambda: C.rec_simple(2, True))]),
+    ("C14", _c14, False, _tick_events_cfg, [("rhombus", lambda: C.rhombus(True)), ("oneof_basic", C.oneof_basic)]),
+    ("C19", _c19, False, _tick_store_cfg, [("rhombus", lambda: C.rhombus(False)), ("switch_basic", lambda: C.switch_basic(False, False))]),
+]:
+    if verdict is None:
+        from .c01 import verdict as _c01_verdict
+        verdict = _c01_verdict
+    for nm, f in specs:
+        _reg(prop, "tick_" + nm, f, verdict, tier="thorough", judge_hang=hang_judged, beh_kw=dict(TICK), cfg_fn=cfgf,
+             budget=2400, extra_syms=TICK_SYMS)
+
+for prop, verdict, hang_judged, specs in [
+    ("C02", _nothing, True, [("oneof_three_none", lambda: C.oneof_basic(NONE_KINDS)), ("rec_nested", C.rec_nested),
+                             ("rec_with_oneof", C.rec_with_oneof)]),
+    ("C10", _c10, False, [("oneof_depth4", lambda: C.oneof_depth(4))]),
+    ("C11", _c11, False, [("rec_simple_iter3", lambda: C.rec_simple(3, True, True))]),
+    ("C04", _c04, False, [("rec_simple_iter3", lambda: C.rec_simple(3, True, True))]),
+]:
+    for nm, f in specs:
+        _reg(prop, "deep_" + nm, f, verdict, tier="thorough", judge_hang=hang_judged, budget=2400)
+
+
+# ------------------------------------------------------------------------------------ suspending collaborators
+# Event callbacks / artifact saves that really suspend (await asyncio.sleep(d), d symbolic; d = 0: no suspension):
+# opens the await windows inside _execute_node / _run_node that the no-op collaborators of the test-suite never open.
+def _slow(events: bool, store: bool, write_once: bool = False) -> Any:
+    def cfg(sym: Any) -> Cfg:
+        return Cfg(events=events, store=store, write_once=write_once, collab_dur=sym.int("collab_dur", 0, 86399))
+
+    return cfg
+
+
+SLOW_SYMS = ("duration of every event callback / artifact save (0 = does not suspend)",)
+SLOW_DUR = {"oneof_shared_dep": {"H"}, "oneof_diamond": {"F", "S"}, "rec_simple": {"M"}, "switch_shared_case": set(),
+            "shared_scopes": set(), "rec_inner_start": {"Side", "M"}, "rhombus": {"B", "C"}, "oneof_basic": {"C1"},
+            "retry_chain": set()}
+for prop, verdict, hang_judged, cfgf, specs in [
+    ("C01", None, False, _slow(True, True), [("oneof_shared_dep", C.oneof_shared_dep), ("oneof_diamond", C.oneof_diamond),
+                                             ("rec_simple", lambda: C.rec_simple(1, True)),
+                                             ("switch_shared_case", C.switch_shared_case)]),
+    ("C02", _nothing, True, _slow(True, True), [("oneof_shared_dep", C.oneof_shared_dep), ("oneof_diamond", C.oneof_diamond),
+                                                ("rec_simple", lambda: C.rec_simple(2, False, True)),
+                                                ("switch_shared_case", C.switch_shared_case)]),
+    ("C03", _c03, False, _slow(True, True), [("rec_inner_start", lambda: C.rec_inner_start(1)),
+                                             ("switch_shared_case", C.switch_shared_case)]),
+    ("C04", _c04, False, _slow(True, True), [("switch_shared_case", C.switch_shared_case), ("shared_scopes", shared_scopes),
+                                             ("rec_simple", lambda: C.rec_simple(1, True))]),
+    ("C05", _c05, False, _slow(True, True), [("oneof_diamond", C.oneof_diamond), ("rhombus", lambda: C.rhombus(True))]),
+    ("C09", _c09, False, _slow(True, False), [("switch_shared_case", C.switch_shared_case)]),
+    ("C10", _c10, False, _slow(True, True), [("oneof_shared_dep", C.oneof_shared_dep), ("oneof_diamond", C.oneof_diamond)]),
+    ("C11", _c11, False, _slow(True, True), [("rec_inner_start", lambda: C.rec_inner_start(1)),
+                                             ("rec_simple", lambda: C.rec_simple(2, True))]),
+    ("C14", _c14, False, _slow(True, False), [("rhombus", lambda: C.rhombus(True)), ("oneof_basic", C.oneof_basic),
+                                              ("switch_shared_case", C.switch_shared_case),
+                                              ("retry_chain", C.retry_chain)]),
+    ("C19", _c19, False, _slow(False, True, True), [("rhombus", lambda: C.rhombus(False)), ("oneof_basic", C.oneof_basic),
+                                                    ("retry_chain", C.retry_chain)]),
+]:
+    if verdict is None:
+        from .c01 import verdict as _c01_verdict
+        verdict = _c01_verdict
+    for nm, f in specs:
+        _reg(prop, "slow_collab_" + nm, f, verdict, tier="quick", judge_hang=hang_judged, cfg_fn=cfgf, budget=400,
+             beh_kw={"dur_nodes": SLOW_DUR[nm]}, extra_syms=SLOW_SYMS + ("node durations only for %s" % sorted(SLOW_DUR[nm]),))
